@@ -312,7 +312,9 @@ func runC01(r *Run) {
 	}
 	trec = func(p string) {
 		if p != "" && !strings.Contains(p, "<!") && !strings.Contains(p, "<?") {
-			tok(p + "\"'>") // the suffix closes any open quote and tag: behaviour at end of input inside a tag is not compared
+			// the suffix closes any open quote and tag from every state (before a value the first quote OPENS one,
+			// hence both quotes twice): behaviour at end of input inside a tag is not compared
+			tok(p + "\"'\"'>")
 		}
 		if len(p) == tmax {
 			return
